@@ -42,6 +42,18 @@ def gen(tier, rng):
             tail = igz.corpus(rng, "text", 40)
             add(api="deflate_stateless", inp=[[0, 255][(i // 2) % 2]] * (4096 + n) + tail, level=(i // 2) % 4, wrap=wraps[(i // 3) % 5], lbuf=3, calls=[[4096 + n + 40, 6000 + n, 0, 1]],
                 meta={"cls": "constant-prefix", "cpu": CPUS[(i + 1) % len(CPUS)]})
+    # every (CPU level, compression level) pair on a medium input long enough for the vector kernels' main loops
+    # (level-3 match-map generators _04/_06, hash kernels, encode_df _04/_06); match-heavy data decodes fast in TLC
+    for ci, cpu in enumerate(CPUS):
+        for level in range(4):
+            cls = ["runs", "periodic", "lowent", "records"][(ci + level) % 4]
+            n = {"records": 9000}.get(cls, 30000 if tier == "quick" else 90000)
+            inp = igz.corpus(rng, cls, n)
+            if (ci + level) % 2:
+                add(api="deflate_stateless", inp=inp, level=level, wrap=wraps[(ci + level) % 5], hist_bits=[0, 12, 0, 15, 9, 0][ci], lbuf=3, calls=[[n, n + 4000, 0, 1]], meta={"cls": cls + "-medium", "cpu": cpu})
+            else:
+                add(api="deflate", inp=inp, level=level, wrap=wraps[(ci + level) % 5], hist_bits=[0, 12, 0, 15, 9, 0][ci], lbuf=[3, 1, 0][level % 3],
+                    calls=[[[4096, 289, 20000][ci % 3], 1 << 16, [0, 1, 2][(ci + level) % 3], 1]] * (n // 289 + 2), meta={"cls": cls + "-medium", "cpu": cpu})
     # large inputs: stored-block splitting at 65535, 16-bit hash position wrap, internal buffer wrap
     big = [("random", 70000, 0), ("periodic", 200000, 2), ("text", 66000, 1), ("records", 36000 if tier == "quick" else 140000, 3)]
     if tier == "thorough":
